@@ -224,7 +224,20 @@ def run(repo, rep, tier):
                         'the literal skeleton %r of the Name this function '
                         'builds: a restarted manager does not rediscover its '
                         'instances' % sk)
-        ok = bool(args) and norm(args[0]) == 'self._subscription_manager_id'
+        first = args[0] if args else None
+        bf = mgr.methods[cname]
+        for _ in range(4):
+            # a local that only ever holds one value stands for that value
+            if not isinstance(first, ast.Name):
+                break
+            defs = [n.value for n in walk_no_nested(bf.node)
+                    if isinstance(n, ast.Assign) and len(n.targets) == 1 and
+                    norm(n.targets[0]) == first.id]
+            if len(defs) != 1 or first.id in bf.params:
+                break
+            first = defs[0]
+        ok = first is not None and \
+            norm(first) == 'self._subscription_manager_id'
         r4.ob(ok, cname + ':id-first')
         if not ok:
             rep.finding(r4, mgr.name + '.' + cname, fmt, 'id-field', SM,
@@ -234,9 +247,32 @@ def run(repo, rep, tier):
         raise AnalysisError('Name builders not found in _create_destination/'
                             '_create_filter')
     init = mgr.methods['__init__']
-    ok = any(isinstance(n, ast.If) and
-             norm(n.test) == "':' in subscription_manager_id" and
-             always_exits(n.body) for n in walk_no_nested(init.node))
+    # every way through the constructor (its private helpers inlined) that
+    # returns has established that the id does not contain the separator
+    from ..inline import Flat as _Flat
+    from ..paths import return_paths as _rp
+    from ..cfg import GuardWalker as _GW
+    pid = next((p_ for p_ in init.params
+                if p_ != 'self' and 'id' in p_.lower()), None)
+    if pid is None:
+        raise AnalysisError('WBEMSubscriptionManager.__init__: manager id '
+                            'parameter not found')
+    ipaths = _rp(_Flat(init), max_paths=200)
+    if not ipaths:
+        raise AnalysisError('WBEMSubscriptionManager.__init__: paths not '
+                            'enumerable')
+
+    def excludes_colon(p_):
+        for t0, p0 in p_.facts:
+            for t, pol in _GW._atoms(t0, p0):
+                if isinstance(t, ast.Compare) and len(t.ops) == 1 and \
+                        const_str(t.left) == ':' and \
+                        norm(t.comparators[0]) == pid and (
+                            (isinstance(t.ops[0], ast.In) and not pol) or
+                            (isinstance(t.ops[0], ast.NotIn) and pol)):
+                    return True
+        return False
+    ok = all(excludes_colon(p_) for p_ in ipaths)
     r4.ob(ok, '__init__:colon')
     if not ok:
         rep.finding(r4, init.qualname, "':' in subscription_manager_id",
